@@ -43,6 +43,30 @@ type c03PoolCase struct {
 	StallMs    int       `json:"stall_ms"`
 	Others     []int     `json:"others"` // blocks scanned to completion while Q1 is parked
 	Rounds     int       `json:"rounds"`
+	// Big: blocks of ~2.5 MiB of row data with ~170 000 distinct tokens each at
+	// a false-positive rate of 1e-12, so the block filter region spans several
+	// 4 MiB chunk reads and row-data buffers share the chunk buffers' size class;
+	// the prelude can then fail a LATER chunk read ("chunkfail")
+	Big bool `json:"big,omitempty"`
+}
+
+// genC03PoolBig: the multi-chunk filter region variant.
+func genC03PoolBig() *rapid.Generator[c03PoolCase] {
+	return rapid.Custom(func(t *rapid.T) c03PoolCase {
+		c := c03PoolCase{Big: true, Comp: "none", Blocks: rapid.IntRange(2, 3).Draw(t, "blocks"), Rows: 3600,
+			QConc: pick(t, "qconc", []int{4, 2, 1}), Procs: pick(t, "procs", []int{1, 2, 0})}
+		for i := rapid.IntRange(1, 3).Draw(t, "npre"); i > 0; i-- {
+			c.Prelude = append(c.Prelude, poolPre{Op: pick(t, "preop", []string{"chunkfail", "chunkfail", "readfail", "closeearly"}), Block: unif(t, "preblock", c.Blocks), K: rapid.IntRange(1, 300).Draw(t, "prek")})
+		}
+		c.Q1Block = unif(t, "q1", c.Blocks)
+		c.StallAfter = rapid.IntRange(1, 100).Draw(t, "stallafter")
+		c.StallMs = pick(t, "stallms", []int{20, 50})
+		for i := rapid.IntRange(1, 2).Draw(t, "nothers"); i > 0; i-- {
+			c.Others = append(c.Others, unif(t, "other", c.Blocks))
+		}
+		c.Rounds = rapid.IntRange(1, 2).Draw(t, "rounds")
+		return c
+	})
 }
 
 func genC03Pool() *rapid.Generator[c03PoolCase] {
@@ -81,6 +105,9 @@ func runC03Pool(c c03PoolCase) *Violation {
 	cfg.RowDataCompression = bs.CompressionType(c.Comp)
 	cfg.MaxQueryConcurrency = c.QConc
 	cfg.PartitionFunc = func(row map[string]any) string { s, _ := row["b"].(string); return s }
+	if c.Big {
+		cfg.BloomFalsePositiveRate = 1e-12
+	}
 	ds := NewMemDataStore(false)
 	ms := bs.NewMemoryMetaStore()
 	tr := NewTrace(ds, ms)
@@ -104,6 +131,13 @@ func runC03Pool(c c03PoolCase) *Violation {
 			row := map[string]any{"key": key, "b": fmt.Sprintf("blk%d", b), "v": fmt.Sprintf("block %d row %05d", b, i), "n": map[string]any{"i": i, "l": []any{b, "x"}}}
 			if c.Pad > 0 {
 				row["pad"] = strings.Repeat(string(rune('a'+b)), c.Pad)
+			}
+			if c.Big {
+				var sb strings.Builder
+				for j := 0; j < 64; j++ {
+					fmt.Fprintf(&sb, "t%d-%d-%d ", b, i, j)
+				}
+				row["t"] = sb.String()
 			}
 			rows = append(rows, row)
 			jb, _ := json.Marshal(row)
@@ -137,6 +171,18 @@ func runC03Pool(c c03PoolCase) *Violation {
 			cl++
 		}
 		classes[cl] = true
+	}
+	regionStart := int64(files[0].Meta.BlockFilterRegionOffset)
+	regionEnd := regionStart + int64(files[0].Meta.BlockFilterRegionSize)
+	if c.Big {
+		if regionEnd-regionStart > 4<<20 {
+			Ev.Class("pool:filter-region-spans-several-chunks")
+		}
+		for cl := range classes {
+			if cl == 22 {
+				Ev.Class("pool:row-data-in-the-chunk-buffer-size-class")
+			}
+		}
 	}
 	// one-shot armed fault, aimed at reads that overlap a block's row data
 	var fmu sync.Mutex
@@ -201,6 +247,12 @@ func runC03Pool(c c03PoolCase) *Violation {
 		if p.Op == "readfail" || p.Op == "corrupt" {
 			armed = p.Op
 			armedRange = blockRange[fmt.Sprintf("blk%d", p.Block)]
+		}
+		if p.Op == "chunkfail" {
+			// a read of the block filter region that starts beyond its first 4 MiB
+			// chunk: the second or a later chunk read of the filter pass
+			armed = "readfail"
+			armedRange = [2]int64{regionStart + 4<<20, regionEnd}
 		}
 		fmu.Unlock()
 		qctx, cancel := context.WithCancel(ctx)
